@@ -3,11 +3,11 @@ import hashlib, json, os, re, shutil, subprocess, sys, time, glob
 
 VERIF = os.path.dirname(os.path.dirname(os.path.abspath(__file__)))
 REPO = os.environ.get("VERIF_REPO", "/repo")
-OUT = os.path.join(VERIF, "out")
+OUT = os.environ.get("VERIF_OUT", os.path.join(VERIF, "out"))      # scratch (the mutation matrix points it elsewhere)
 BUILD = os.path.join(VERIF, "build")
 SPEC = os.path.join(VERIF, "spec")
 HARNESS = os.path.join(VERIF, "harness")
-EVID = os.path.join(VERIF, "evidence")
+EVID = os.environ.get("VERIF_EVID", os.path.join(VERIF, "evidence"))
 SEED = int(os.environ.get("VERIF_SEED", "1") or "1")
 NCPU = os.cpu_count() or 4
 
